@@ -236,6 +236,9 @@ structure Quirks where
   nameMismatchSyntax : Bool := false
   /-- … and removes the symbol table of the block before raising -/
   nameMismatchRemoves : Bool := false
+  /-- `Outer/Inner_Shared_Do_Construct.match` catch `NoMatchError` and restore the reader
+      before returning None (the pinned code does neither: "todo: restore reader") -/
+  seqRestores : Bool := false
   deriving Repr, DecidableEq, Inhabited
 
 structure Table where
@@ -300,10 +303,13 @@ inductive Ghost where
   | seqDrop
   /-- DO-label hook: object without `get_start_label` neither kept nor restored -/
   | hookDrop
-  /-- `Program.match` fell back to `Main_Program0` after collecting content -/
+  /-- a `NoMatchError` left `BlockBase.match` (from the DO-label hook) with content consumed;
+      `Base.__new__` then treats it as "no match" -/
+  | noMatchDrop
+  /-- `Program.match` fell back to `Main_Program0` -/
+  | fallback
+  /-- … after having collected content, which is dropped -/
   | progDrop
-  /-- an exception left a `match` after items were consumed (nothing is restored) -/
-  | raiseDrop
   /-- an exception other than `FortranSyntaxError` (or an early `return`) left
       `BlockBase.match` while its scope was open -/
   | scopeLeak
@@ -478,18 +484,22 @@ def cppClasses (env : Env) : List Cls :=
   | .cpp cs => cs
   | _ => []
 
-/-- `match_comment_or_include(reader)` then `match_cpp_directive(reader)` -/
-def cidOne (env : Env) (st : St) : Outcome × St :=
-  let r1 : Outcome × St := if env.processDirectives then directiveNew env st else (.none, st)
-  match r1 with
-  | (.none, s1) =>
-    match commentNew env s1 with
-    | (.none, s2) =>
-      match leafFresh env env.tbl.includeStmt s2 with
-      | (.none, s3) => cppNew env (cppClasses env) s3
-      | r => r
+/-- `Comment(reader)`, then `Include_Stmt(reader)`, then `match_cpp_directive(reader)` -/
+def cidRest (env : Env) (s1 : St) : Outcome × St :=
+  match commentNew env s1 with
+  | (.none, s2) =>
+    match leafFresh env env.tbl.includeStmt s2 with
+    | (.none, s3) => cppNew env (cppClasses env) s3
     | r => r
   | r => r
+
+/-- `match_comment_or_include(reader)` then `match_cpp_directive(reader)` -/
+def cidOne (env : Env) (st : St) : Outcome × St :=
+  if env.processDirectives then
+    match directiveNew env st with
+    | (.none, s1) => cidRest env s1
+    | r => r
+  else cidRest env st
 
 /-- `add_comments_includes_directives(content, reader)`; `rc` newest first -/
 def addCID (env : Env) : Nat → List Tree → St → Except Exc (List Tree) × St
@@ -675,6 +685,15 @@ inductive StartRes where
 
 def ghostIf (b : Bool) (g : Ghost) (st : St) : St := if b then st.ev (.ghost g) else st
 
+/-- python variable `table_name` after the start statement -/
+def tableNameOf (inf : NodeInfo) : Option Name := if inf.scoping then inf.scopeName else none
+
+/-- `SYMBOL_TABLES.enter_scope(table_name, obj)` if the start statement is a scoping region -/
+def enterState (tn : Option Name) (s2 : St) : St :=
+  match tn with
+  | some n => ghostIf (n == 0) .emptyScopeName (s2.enter n)
+  | none => s2
+
 /-- `BlockBase.match` up to and including the start statement -/
 def blockStart (env : Env) (f : F) (fuel : Nat) (cfg : Cfg) (st : St) : StartRes × St :=
   match cfg.start with
@@ -687,19 +706,18 @@ def blockStart (env : Env) (f : F) (fuel : Nat) (cfg : Cfg) (st : St) : StartRes
       | (.raise e, s2) => (.ret (.raise e), s2)
       | (.none, s2) => (.ret .none, restoreRc rc0 s2)
       | (.tree t, s2) =>
-        let inf := infoOf env.tbl t
-        if inf.scoping && inf.scopeName.isNone then (.ret (.raise .other), s2)
+        if (infoOf env.tbl t).scoping && (infoOf env.tbl t).scopeName.isNone then
+          (.ret (.raise .other), s2)
+        else if cfg.matchNames && !(infoOf env.tbl t).hasStartName then
+          (.ret (.raise .other),
+            ghostIf (truthy (tableNameOf (infoOf env.tbl t))) .scopeLeak
+              (enterState (tableNameOf (infoOf env.tbl t)) s2))
         else
-          let tn : Option Name := if inf.scoping then inf.scopeName else none
-          let s3 : St := match tn with
-            | some n => ghostIf (n == 0) .emptyScopeName (s2.enter n)
-            | none => s2
-          if cfg.matchNames && !inf.hasStartName then
-            (.ret (.raise .other), ghostIf (truthy tn) .scopeLeak s3)
-          else
-            let sl := if inf.hasStartLabel && cfg.doHook then some inf.startLabel else none
-            let sn := if cfg.matchNames then some inf.startName else none
-            (.go (t :: rc0) (some t) tn sl sn, s3)
+          (.go (t :: rc0) (some t) (tableNameOf (infoOf env.tbl t))
+            (if (infoOf env.tbl t).hasStartLabel && cfg.doHook
+              then some (infoOf env.tbl t).startLabel else none)
+            (if cfg.matchNames then some (infoOf env.tbl t).startName else none),
+           enterState (tableNameOf (infoOf env.tbl t)) s2)
 
 inductive NameCheck where
   | ok
@@ -738,46 +756,59 @@ def condRemove (b : Bool) (n : Option Name) (st : St) : Bool × St :=
   | true, some n => st.remove n
   | _, _ => (true, st)
 
+/-- the `except FortranSyntaxError` handler: `exit_scope`, `remove`, re-raise -/
+def blockCleanup (tn : Option Name) (e : Exc) (s2 : St) : MRes × St :=
+  match condExit (truthy tn) s2 with
+  | (false, s3) => (.raise .other, s3)
+  | (true, s3) =>
+    match condRemove (truthy tn) tn s3 with
+    | (false, s4) => (.raise .other, s4)
+    | (true, s4) => (.raise e, s4)
+
+/-- `BlockBase.match` after the loop and `if table_name: exit_scope()` -/
+def blockTail (env : Env) (cfg : Cfg) (startT : Option Tree) (tn : Option Name) (v : LoopVars)
+    (foundEnd : Bool) (s3 : St) : MRes × St :=
+  if (!v.hadMatch || !foundEnd) && cfg.end_.isSome then
+    match condRemove (truthy tn) tn s3 with
+    | (false, s4) => (.raise .other, s4)
+    | (true, s4) => (.none, restoreRc v.rc s4)
+  else if v.rc.isEmpty then (.none, s3)
+  else
+    match finalNameCheck env.tbl cfg startT v.rc with
+    | .ok => (.tuple v.rc.reverse, s3)
+    | .error => (.raise .other, s3)
+    | .mismatch =>
+      if env.tbl.quirks.nameMismatchSyntax then
+        match condRemove (truthy tn && env.tbl.quirks.nameMismatchRemoves) tn s3 with
+        | (false, s4) => (.raise .other, s4)
+        | (true, s4) => (.raise .syntax, s4)
+      else (.raise .systemExit, s3.ev (.ghost .sysExit))
+
+/-- `BlockBase.match` from the end of the loop -/
+def blockFinish (env : Env) (cfg : Cfg) (startT : Option Tree) (tn : Option Name) (res : LoopRes)
+    (s2 : St) : MRes × St :=
+  match res with
+  | .raise e =>
+    if e == .syntax || (env.tbl.quirks.catchInternalSyntax && e == .internalSyntax) then
+      blockCleanup tn e s2
+    else (.raise e, ghostIf (e == .noMatch) .noMatchDrop (ghostIf (truthy tn) .scopeLeak s2))
+  | .abort => (.none, ghostIf (truthy tn) .scopeLeak s2)
+  | .done v foundEnd =>
+    match condExit (truthy tn) s2 with
+    | (false, s3) => (.raise .other, s3)
+    | (true, s3) => blockTail env cfg startT tn v foundEnd s3
+
+def loopVars0 (cfg : Cfg) (rc0 : List Tree) (sl : Option (Option Nat)) : LoopVars :=
+  { rc := rc0, hadMatch := false, ifHook := cfg.ifHook, whereHook := cfg.whereHook,
+    startLabel := sl }
+
 /-- `BlockBase.match(startcls, subclasses, endcls, reader, …)` -/
 def blockMatch (env : Env) (f : F) (fuel : Nat) (cfg : Cfg) (st : St) : MRes × St :=
   match blockStart env f fuel cfg st with
   | (.ret r, s1) => (r, s1)
   | (.go rc0 startT tn sl sn, s1) =>
-    let named := truthy tn
-    let v0 : LoopVars :=
-      { rc := rc0, hadMatch := false, ifHook := cfg.ifHook, whereHook := cfg.whereHook,
-        startLabel := sl }
-    match blockLoop env f cfg (blockClasses env cfg) startT sn fuel 0 v0 s1 with
-    | (.raise e, s2) =>
-      if e == .syntax || (env.tbl.quirks.catchInternalSyntax && e == .internalSyntax) then
-        -- except FortranSyntaxError [, InternalSyntaxError]: clean up
-        match condExit named s2 with
-        | (false, s3) => (.raise .other, s3)
-        | (true, s3) =>
-          match condRemove named tn s3 with
-          | (false, s4) => (.raise .other, s4)
-          | (true, s4) => (.raise e, s4)
-      else (.raise e, ghostIf named .scopeLeak s2)
-    | (.abort, s2) => (.none, ghostIf named .scopeLeak s2)
-    | (.done v foundEnd, s2) =>
-      match condExit named s2 with
-      | (false, s3) => (.raise .other, s3)
-      | (true, s3) =>
-        if (!v.hadMatch || !foundEnd) && cfg.end_.isSome then
-          match condRemove named tn s3 with
-          | (false, s4) => (.raise .other, s4)
-          | (true, s4) => (.none, restoreRc v.rc s4)
-        else if v.rc.isEmpty then (.none, s3)
-        else
-          match finalNameCheck env.tbl cfg startT v.rc with
-          | .ok => (.tuple v.rc.reverse, s3)
-          | .error => (.raise .other, s3)
-          | .mismatch =>
-            if env.tbl.quirks.nameMismatchSyntax then
-              match condRemove (named && env.tbl.quirks.nameMismatchRemoves) tn s3 with
-              | (false, s4) => (.raise .other, s4)
-              | (true, s4) => (.raise .syntax, s4)
-            else (.raise .systemExit, s3.ev (.ghost .sysExit))
+    let lr := blockLoop env f cfg (blockClasses env cfg) startT sn fuel 0 (loopVars0 cfg rc0 sl) s1
+    blockFinish env cfg startT tn lr.1 lr.2
 
 /-! ## the other `match` methods -/
 
@@ -792,13 +823,19 @@ def manyLoop (f : F) (c : Cls) : Nat → List Tree → St → MRes × St
 
 /-- `Outer_Shared_Do_Construct.match` / `Inner_Shared_Do_Construct.match`
 ("todo: restore reader" in the source) -/
-def seqNR (f : F) : List Cls → List Tree → St → MRes × St
+def seqNR (q : Quirks) (f : F) : List Cls → List Tree → St → MRes × St
   | [], rc, st => (.tuple rc.reverse, st)
   | c :: cs, rc, st =>
-    match f c st with
-    | (.raise e, s1) => (.raise e, ghostIf (!rc.isEmpty) .seqDrop s1)
-    | (.none, s1) => (.none, ghostIf (!rc.isEmpty) .seqDrop s1)
-    | (.tree t, s1) => seqNR f cs (t :: rc) s1
+    if q.seqRestores then
+      match callCatch f c st with
+      | (.raise e, s1) => (.raise e, s1)
+      | (.none, s1) => (.none, restoreRc rc s1)
+      | (.tree t, s1) => seqNR q f cs (t :: rc) s1
+    else
+      match f c st with
+      | (.raise e, s1) => (.raise e, ghostIf (!rc.isEmpty) .seqDrop s1)
+      | (.none, s1) => (.none, ghostIf (!rc.isEmpty) .seqDrop s1)
+      | (.tree t, s1) => seqNR q f cs (t :: rc) s1
 
 /-- `Main_Program0.match` -/
 def main0Match (env : Env) (f : F) (fuel : Nat) (cfg : Cfg) (scope : Name) (st : St) : MRes × St :=
@@ -827,6 +864,12 @@ inductive PRes where
   | done (rc : List Tree)
   | fail (rc : List Tree) (e : Exc)
 
+/-- `if obj: content.append(obj)` -/
+def pushTree (o : Outcome) (rc : List Tree) : List Tree :=
+  match o with
+  | .tree t => t :: rc
+  | _ => rc
+
 /-- the `while True` loop of `Program.match` -/
 def programLoop (env : Env) (f : F) (unit : Cls) (fuel : Nat) : Nat → List Tree → St → PRes × St
   | 0, rc, st => (.fail rc .outOfFuel, st)
@@ -834,11 +877,8 @@ def programLoop (env : Env) (f : F) (unit : Cls) (fuel : Nat) : Nat → List Tre
     match f unit st with
     | (.raise e, s1) => (.fail rc e, s1)
     | (o, s1) =>
-      let rc1 := match o with
-        | .tree t => t :: rc
-        | _ => rc
-      match addCID env fuel rc1 s1 with
-      | (.error e, s2) => (.fail rc1 e, s2)
+      match addCID env fuel (pushTree o rc) s1 with
+      | (.error e, s2) => (.fail (pushTree o rc) e, s2)
       | (.ok rc2, s2) =>
         match s2.get with
         | (none, s3) => (.done rc2, s3)
@@ -853,7 +893,7 @@ def programMatch (env : Env) (f : F) (fuel : Nat) (unit main0 : Cls) (st : St) :
     | (.done rc, s2) => (.tuple rc.reverse, s2)
     | (.fail rc .noMatch, s2) =>
       blockMatch env f fuel { start := some main0, subs := [], end_ := none }
-        (ghostIf (!rc.isEmpty) .progDrop s2)
+        (ghostIf (!rc.isEmpty) .progDrop (s2.ev (.ghost .fallback)))
     | (.fail _ e, s2) => (.raise e, s2)
 
 /-! ## `Base.__new__` -/
@@ -904,7 +944,7 @@ def eval (env : Env) : Nat → G
     | .alt subs => altLoop env g subs pc st
     | .block cfg subs => finish env g c subs (blockMatch env f fuel cfg st) pc
     | .many item subs => finish env g c subs (manyLoop f item fuel [] st) pc
-    | .seqNR cs subs => finish env g c subs (seqNR f cs [] st) pc
+    | .seqNR cs subs => finish env g c subs (seqNR env.tbl.quirks f cs [] st) pc
     | .main0 cfg scope subs => finish env g c subs (main0Match env f fuel cfg scope st) pc
     | .program unit main0 subs =>
       let r := finish env g c subs (programMatch env f fuel unit main0 st) [c]
